@@ -273,7 +273,7 @@ func (r Rng) agwFrame() agwpe.VerifFrame {
 
 func runC13(ctx *Ctx) error {
 	r, res := ctx.Rng, ctx.Res
-	res.Rule = "(1) codec correspondence: random frames (all kinds, all ports, binary callsign fields, data 0..300 bytes) encoded by frame.WriteTo vs the model, and random streams (concatenated encodings, arbitrarily split into reads, optionally truncated mid-header / mid-data or followed by a header announcing up to 4 GiB) parsed by frame.ReadFrom vs the model's reader; the frame constructors and framesFilter.Want vs the model. (2) end-to-end against a scripted AGWPE TNC on an in-memory duplex link whose reads return at most 1..64 bytes (and, thorough, on loopback TCP with separate writes): RegisterPort (the TNC reporting MAXFRAME 0, 1, 3, 7 or 255), Dial (direct and via digipeaters) or Accept, TNC->host connected-data frames interleaved with frames for other ports, other stations and of other kinds, Read with random caller buffer sizes (1 byte up to larger than the frame) and reader delays, Write of random payloads, Flush, Close, Port.Close. Oracles written independently of the code: bytes returned by Read = concatenation of the connection's payloads in order (and = the model's conn_reads for the same buffer sizes); frames the TNC received for Write carry port, callsigns, PID 0xF0 and the written bytes in order; the exchange kinds g,X,(C|v),Y..,D..,Y..,d,x occur in that order; a refused dial, a wrong-length 'Y', a short 'g', a non-CONNECTED 'C', truncated streams and over-long headers produce errors, not crashes or hangs. Non-trivial: scenario moving at least one payload in each direction with a split inside a frame; distinct by scenario parameters."
+	res.Rule = "(1) codec correspondence: random frames (all kinds, all ports, binary callsign fields, data 0..300 bytes) encoded by frame.WriteTo vs the model, and random streams (concatenated encodings, arbitrarily split into reads, optionally truncated mid-header / mid-data or followed by a header announcing up to 4 GiB) parsed by frame.ReadFrom vs the model's reader; the frame constructors and framesFilter.Want vs the model. (2) end-to-end against a scripted AGWPE TNC on an in-memory duplex link whose reads return at most 1..64 bytes (and, thorough, on loopback TCP with separate writes): RegisterPort (the TNC reporting MAXFRAME 0, 1, 3, 7 or 255), Dial (direct and via digipeaters) or Accept (the connect notification's callsign field zero-padded or followed by stale bytes behind its NUL), TNC->host connected-data frames interleaved with frames for other ports, other stations and of other kinds, Read with random caller buffer sizes (1 byte up to larger than the frame) and reader delays, Write of random payloads, Flush, Close, Port.Close. Oracles written independently of the code: bytes returned by Read = concatenation of the connection's payloads in order (and = the model's conn_reads for the same buffer sizes); frames the TNC received for Write carry port, callsigns, PID 0xF0 and the written bytes in order; the exchange kinds g,X,(C|v),Y..,D..,Y..,d,x occur in that order; a refused dial, a wrong-length 'Y', a short 'g', a non-CONNECTED 'C', truncated streams and over-long headers produce errors, not crashes or hangs. Non-trivial: scenario moving at least one payload in each direction with a split inside a frame; distinct by scenario parameters."
 	os.Setenv("AGWPE_DEBUG", "1")
 	dl := &dropLog{}
 	log.SetOutput(dl)
@@ -725,7 +725,15 @@ func (sc c13Scenario) run(r Rng) (fails []Failure, reads *c13Reads) {
 			var a acc
 			accepted := false
 			for attempt := 0; attempt < 6 && !accepted; attempt++ {
-				sendSplit(simFrame{Port: sc.port, Kind: 'C', From: sc.peer, To: sc.mycall, Data: []byte("*** CONNECTED To Station " + sc.mycall + "\r")}.encode())
+				note := simFrame{Port: sc.port, Kind: 'C', From: sc.peer, To: sc.mycall, Data: []byte("*** CONNECTED To Station " + sc.mycall + "\r")}.encode()
+				if sc.id%2 == 0 {
+					// a TNC that reuses its buffer: what follows the terminating NUL of the (shorter)
+					// callsign is what was there before, not zeros
+					for k := 8 + len(sc.peer) + 1; k < 17; k++ {
+						note[k] = "XA-10QRZ9"[(k-8)%9]
+					}
+				}
+				sendSplit(note)
 				select {
 				case a = <-ch:
 					accepted = true
